@@ -439,17 +439,17 @@ def run_trace(steps, t=0, exps=None):
 # ------------------------------------------------------------------ step generators
 SET_ITEMS = ["Cookie", "cookie", "COOKIE", "Accept", "x y", "a,b", "Accept-Language", 'q"t', "*"]
 CC_KEYS = ["max-age", "no-cache", "x-ext", "private", "public"]
-CC_VALS = [None, "3", "x y", "a,b", "", "0", 'q"t', "abc"]
-TVS = [{"tg": "none"}, {"tg": "true"}, {"tg": "false"}, {"tg": "int", "n": 0}, {"tg": "int", "n": 3600},
-       {"tg": "int", "n": 7}, {"tg": "str", "s": "12"}, {"tg": "str", "s": "abc"}, {"tg": "str", "s": "x y"},
-       {"tg": "str", "s": ""}, {"tg": "str", "s": "007"}]
-CSP_VALS = ["'self'", "'self' https://a.example", "*", "'none'", "https://cdn.example/x y"]
+CC_VALS = [None, "3", "", "0", "x y", "a,b", 'q"t', "abc"]
+TVS = [{"tg": "none"}, {"tg": "true"}, {"tg": "false"}, {"tg": "int", "n": 0}, {"tg": "str", "s": ""},
+       {"tg": "int", "n": 3600}, {"tg": "str", "s": "0"}, {"tg": "int", "n": 7}, {"tg": "str", "s": "12"},
+       {"tg": "str", "s": "abc"}, {"tg": "str", "s": "x y"}, {"tg": "str", "s": "007"}]
+CSP_VALS = ["'self'", "", "'self' https://a.example", "*", "'none'", "https://cdn.example/x y"]
 WA_TYPES = ["basic", "digest", "bearer", "negotiate", "x-custom"]
 WA_KEYS = ["realm", "nonce", "qop", "charset", "error", "scope"]
-WA_VALS = ["x", "a b", "auth,auth-int", "", 'q"t', "UTF-8"]
+WA_VALS = ["x", "", "a b", "auth,auth-int", 'q"t', "UTF-8", "0"]
 WA_TOKENS = ["abc123", "YWJj", "a.b-c_d~e+f/g", ""]
 MTP_KEYS = ["charset", "boundary", "q", "format"]
-MTP_VALS = ["utf-8", "a b", "x;y", "", "flowed"]
+MTP_VALS = ["utf-8", "", "a b", "x;y", "flowed", "0"]
 MIMETYPES = ["text/html", "application/json", "image/svg+xml", "text/plain", "application/octet-stream"]
 UNITS = ["bytes", "items", None]
 
@@ -466,8 +466,8 @@ def ops_for(kind, rng=None, small=False):
         for n in (0, -1, 1, 5):
             out += [{"op": "delitem", "n": n}, {"op": "setitem", "n": n, "x": "Origin"}]
     elif kind == "cc":
-        attrs = CC_ATTRS[:6] if small else CC_ATTRS
-        tvs = TVS[:6] if small else TVS
+        attrs = (CC_ATTRS[:5] + ["s_maxage"]) if small else CC_ATTRS
+        tvs = TVS[:7] if small else TVS
         for a in attrs:
             out += [{"op": "cc_set", "tag": a, "tv": tv} for tv in tvs]
             out.append({"op": "cc_del", "tag": a})
@@ -492,17 +492,19 @@ def ops_for(kind, rng=None, small=False):
         out += [{"op": "clear"}, {"op": "popitem"}, {"op": "update", "ps": [["charset", "latin-1"], ["q", "1"]]}]
     elif kind == "cr":
         for m in ([0, 10, 100], [0, 10, None], [None, None, 50], [None, None, None], [5, 5, 10], [10, 5, None],
-                  [0, 1, 1], [90, 100, 100], [0, 200, 100], [3, None, None]):
+                  [0, 1, 1], [90, 100, 100], [0, 200, 100], [3, None, None], [None, None, 0], [0, 1, None], [0, 0, 0],
+                  [0, 1, 0]):
             for u in (["bytes"] if small else ["bytes", "items"]):
                 out.append({"op": "set", "m": m, "y": u})
         out += [{"op": "unset"}]
         out += [{"op": "set_units", "y": u} for u in UNITS]
         out += [{"op": "set_start", "m": [v, None, None]} for v in (0, 3, 50)]
-        out += [{"op": "set_stop", "m": [v, None, None]} for v in (4, 60, 1000)]
-        out += [{"op": "set_length", "m": [v, None, None]} for v in (None, 100, 2000)]
+        out += [{"op": "set_start", "m": [None, None, None]}]
+        out += [{"op": "set_stop", "m": [v, None, None]} for v in (4, 60, 1000, 1, 0, None)]
+        out += [{"op": "set_length", "m": [v, None, None]} for v in (None, 100, 2000, 0, 1)]
     elif kind == "wa":
         out += [{"op": "set_type", "x": x} for x in (WA_TYPES[:3] if small else WA_TYPES)]
-        out += [{"op": "set_token", "y": y} for y in ([None, "abc123"] if small else [None] + WA_TOKENS)]
+        out += [{"op": "set_token", "y": y} for y in ([None, "abc123", ""] if small else [None] + WA_TOKENS)]
         out += [{"op": "set_params", "ps": [["realm", "r1"]]}, {"op": "set_params", "ps": []},
                 {"op": "set_params", "ps": [["realm", "a b"], ["nonce", "n1"], ["qop", "auth"]]}]
         for k in WA_KEYS[:2 if small else 6]:
@@ -524,28 +526,35 @@ def prop_ops(prop, small=False):
                 {"op": "assign", "prop": prop, "tag": "text", "x": ""},
                 {"op": "assign", "prop": prop, "tag": "list", "xs": ["Cookie", "x y"]}, {"op": "assign", "prop": prop, "tag": "list", "xs": []}]
     elif kind == "cc":
-        out += [{"op": "direct_edit", "prop": prop, "y": y} for y in ("max-age=3, no-cache", "private=\"a,b\", public", "no-store", "MAX-AGE = 5")]
+        out += [{"op": "direct_edit", "prop": prop, "y": y} for y in ("max-age=3, no-cache", "max-age=0, s-maxage=0, no-cache=\"\"", "private=\"a,b\", public", "no-store", "MAX-AGE = 5")]
     elif kind == "csp":
         out += [{"op": "direct_edit", "prop": prop, "y": y} for y in ("default-src 'self'; img-src *", "sandbox", "script-src 'self' https://a.example")]
         out += [{"op": "assign", "prop": prop, "tag": "none"}, {"op": "assign", "prop": prop, "tag": "text", "x": "default-src 'none'"},
                 {"op": "assign", "prop": prop, "tag": "value", "ps": [["default-src", "'self'"], ["img-src", "*"]]},
-                {"op": "assign", "prop": prop, "tag": "value", "ps": []}]
+                {"op": "assign", "prop": prop, "tag": "value", "ps": []},
+                {"op": "assign", "prop": prop, "tag": "value", "ps": [["sandbox", ""], ["default-src", "'self'"]]}]
     elif kind == "cr":
-        out += [{"op": "direct_edit", "prop": prop, "y": y} for y in ("bytes 0-9/100", "bytes */50", "bytes 5-9/*", "garbage")]
+        out += [{"op": "direct_edit", "prop": prop, "y": y} for y in ("bytes 0-9/100", "bytes */0", "bytes 0-0/1", "bytes */50", "bytes 5-9/*", "bytes 0-0/*", "garbage")]
         out += [{"op": "assign", "prop": prop, "tag": "none"}, {"op": "assign", "prop": prop, "tag": "text", "x": "bytes 1-2/3"},
                 {"op": "assign", "prop": prop, "tag": "value", "m": [0, 5, 20], "y": "bytes"},
                 {"op": "assign", "prop": prop, "tag": "value", "m": [None, None, 7], "y": "items"},
-                {"op": "assign", "prop": prop, "tag": "value", "m": [None, None, None], "y": None}]
+                {"op": "assign", "prop": prop, "tag": "value", "m": [None, None, None], "y": None},
+                {"op": "assign", "prop": prop, "tag": "value", "m": [None, None, 0], "y": "bytes"},
+                {"op": "assign", "prop": prop, "tag": "value", "m": [0, 1, 1], "y": "bytes"},
+                {"op": "assign", "prop": prop, "tag": "value", "m": [0, 1, None], "y": "items"},
+                {"op": "assign", "prop": prop, "tag": "text", "x": "bytes */0"}]
     elif kind == "wa":
-        out += [{"op": "direct_edit", "prop": prop, "y": y} for y in ('Basic realm="x"', "Bearer abc123", 'Digest realm="a b", nonce="n", qop="auth"', "Negotiate")]
+        out += [{"op": "direct_edit", "prop": prop, "y": y} for y in ('Basic realm="x"', 'Basic realm=""', "Bearer abc123", 'Digest realm="a b", nonce="n", qop="auth"', "Negotiate")]
         out += [{"op": "assign", "prop": prop, "tag": "none"}, {"op": "del_prop", "prop": prop},
                 {"op": "assign", "prop": prop, "tag": "list", "ws": []},
                 {"op": "assign", "prop": prop, "tag": "list", "ws": [["basic", None, [["realm", "x"]]], ["bearer", "tok1", []]]},
                 {"op": "assign", "prop": prop, "tag": "value", "w": ["digest", None, [["realm", "r"], ["nonce", "n"], ["algorithm", "MD5"]]], "vw": 2},
                 {"op": "assign", "prop": prop, "tag": "value", "w": ["bearer", "t0k", []], "vw": 1},
+                {"op": "assign", "prop": prop, "tag": "value", "w": ["bearer", "", []], "vw": 2},
+                {"op": "assign", "prop": prop, "tag": "value", "w": ["basic", None, [["realm", ""]]], "vw": 1},
                 {"op": "assign", "prop": prop, "tag": "value", "w": ["basic", None, [["realm", "a b"]]], "vw": 1}]
     elif kind == "mtp":
-        out = [{"op": "direct_edit", "prop": prop, "y": y} for y in ("text/html; charset=utf-8", "application/json", 'multipart/mixed; boundary="a b"; q=1')]
+        out = [{"op": "direct_edit", "prop": prop, "y": y} for y in ("text/html; charset=utf-8", 'text/html; charset=""', "application/json", 'multipart/mixed; boundary="a b"; q=1')]
         out += [{"op": "assign", "prop": "mimetype", "tag": "mt", "x": x} for x in (MIMETYPES[:2] if small else MIMETYPES)]
         out += [{"op": "assign", "prop": "content_type", "tag": "text", "x": "text/css; charset=ascii"}]
     return out
@@ -559,13 +568,14 @@ def scalar_steps(prop, rng):
     out = [{"op": "sc_del", "prop": prop}]
     if cls == "str":
         vals = {"location": ["/a b", "https://example.com/x?y=1", "http://h/é"], "content_md5": ["Q2hlY2sgSW50ZWdyaXR5IQ=="],
-                "accept_ranges": ["bytes", "none"], "access_control_allow_origin": ["*", "https://a.example"]}.get(prop, ["gzip", "/x, y", ""])
+                "accept_ranges": ["bytes", "none"], "access_control_allow_origin": ["*", "https://a.example"]}.get(prop, ["gzip", "/x, y"])
+        vals = vals + ["", "0"]
         out += [{"op": "sc_assign", "prop": prop, "tv": {"tg": "str", "s": v}} for v in vals]
     elif cls == "int":
         out += [{"op": "sc_assign", "prop": prop, "tv": {"tg": "int", "n": n}} for n in (0, 1, 4096, 2**31 - 1, rng.randrange(10**6))]
     elif cls == "age":
         out += [{"op": "sc_assign", "prop": prop, "tv": {"tg": "int", "n": n}} for n in (0, 5, -1, 86400 * 400, rng.randrange(10**6))]
-        out += [{"op": "sc_assign", "prop": prop, "tv": {"tg": "td", "n": n, "us": us}} for n, us in ((0, 0), (59, 999999), (90061, 1), (rng.randrange(10**7), rng.randrange(10**6)))]
+        out += [{"op": "sc_assign", "prop": prop, "tv": {"tg": "td", "n": n, "us": us}} for n, us in ((0, 0), (0, 999999), (59, 999999), (90061, 1), (rng.randrange(10**7), rng.randrange(10**6)))]
     elif cls in ("date", "retry"):
         for day in DAYS + [rng.randrange(0, 60000) for _ in range(6)]:
             sec = rng.choice([0, 1, 59, 60, 3599, 3600, 43200, 86399, rng.randrange(86400)])
@@ -574,11 +584,11 @@ def scalar_steps(prop, rng):
         if cls == "retry":
             out += [{"op": "sc_assign", "prop": prop, "tv": {"tg": "int", "n": n}} for n in (0, 120, 86400)]
     elif cls == "etag":
-        out += [{"op": "sc_assign", "prop": prop, "tv": {"tg": "str", "s": s, "n": w}} for s in ("abc", "a b", "", "W/x") for w in (0, 1)]
+        out += [{"op": "sc_assign", "prop": prop, "tv": {"tg": "str", "s": s, "n": w}} for s in ("abc", "a b", "", "0", "W/x") for w in (0, 1)]
     elif cls == "acac":
         out += [{"op": "sc_assign", "prop": prop, "tv": {"tg": tg}} for tg in ("true", "false", "none")]
     elif cls == "hset":
-        out += [{"op": "sc_assign", "prop": prop, "tv": {"tg": "list", "xs": xs}} for xs in (["GET"], ["X-A", "Content-Type"], ["x y", "b"])]
+        out += [{"op": "sc_assign", "prop": prop, "tv": {"tg": "list", "xs": xs}} for xs in (["GET"], ["X-A", "Content-Type"], ["x y", "b"], ["0"])]
     elif cls == "enum":
         vals = ["unsafe-none", "same-origin-allow-popups", "same-origin"] if prop.endswith("opener_policy") else ["unsafe-none", "require-corp"]
         out += [{"op": "sc_assign", "prop": prop, "tv": {"tg": "str", "s": v}} for v in vals]
